@@ -8,6 +8,8 @@ TB = ("Coq 8.16.1 kernel + vm_compute; no axioms declared (Print Assumptions per
       "of the model on the same generated inputs) and, where listed, by the py2coq translator with a re-proved Gen = Model; "
       "Python harness, generators and spec oracles are trusted; see DESIGN.md section 8")
 CLAIMS = {
+ "C12": dict(design="6/C12", technique="Coq proof (power machine invariants for all durations and op sequences, cycle-order table, exact dwell times by countdown induction) + per-op state correspondence + direct property monitors",
+   text="coq/Props/C12.v proves for the model of Node.power_on/power_off/reset/apply_timestep, for every duration (0 included), every list of interfaces/services/applications and every sequence of requests and ticks: the state moves only along the power cycle (explicit transition table), interfaces are all disabled whenever the node is not ON, no service runs and no application is open when OFF, every request but start-up is refused while not ON, shutdown/start-up/reset last exactly the configured number of ticks, and interfaces, services and applications come back up at ON. Tied to base.py by comparing the full observable state after every op of random request/tick sequences on computers, servers, switches, routers and firewalls of generated networks with vm_compute of the model; the harness also checks the property directly (transition table, dwell timelines per duration pair, no frame accepted or sent by a non-ON node)."),
  "C05": dict(design="6/C05", technique="Coq proof (dispatch classified for every tree/validator/handler; refused => state unchanged) + live-tree correspondence + permission-table and state-diff search",
    text="coq/Props/C05.v proves, for every request tree, validator, handler and state of the model of RequestManager.__call__, that every answer is classified (unreachable / failure by the first false validator / the handler's answer), that a request which does not reach a handler returns the state unchanged and is never success, and that a reaching request is handed to the handler. The model is tied to core.py on every run by executing requests (every action type x every component, existing and missing, plus missing/misspelt/truncated path mutations) on live trees at disrupted states and comparing with vm_compute of the model on the dumped path subtree; the search also compares uuid-normalised describe_state before/after refused requests and checks the documented permission table on ground-truth objects."),
  "C11": dict(design="6/C11", technique="Coq proof (check_valid = true <-> reaches handler, corollaries) + per-step all-entries mask vs independent tree walk vs documented table vs execution",
